@@ -72,6 +72,11 @@ def run(ctx):
 
     numeric(ctx, rep)
     ev_named = named_evaluated(ctx)
+    if ev_named:
+        # the per-guard instances below are extra when the function could be run as a whole: their count is not a floor any more
+        for rid_ in ("R14.4", "R14.7"):
+            if rid_ in ctx.r.rules:
+                ctx.r.rules[rid_]["floor"] = 1 if rid_ == "R14.4" else 0      # the evaluation's own instance is filed under R14.4
     try:
         named(ctx, ev_named)
     except AnalysisError:
